@@ -401,6 +401,7 @@ impl Beatmap {
                 &control_points,
                 &last_props,
                 group.timing.is_some(),
+                self.mode,
             );
 
             if let Some(timing) = group.timing {
@@ -513,6 +514,7 @@ impl ControlPointProperties {
         control_points: &ControlPoints,
         last_props: &Self,
         update_sample_bank: bool,
+        mode: GameMode,
     ) -> Self {
         let timing = control_points.timing_point_at(time);
         let difficulty = control_points.difficulty_point_at(time);
@@ -536,10 +538,18 @@ impl ControlPointProperties {
             effect_flags |= EffectFlags::OMIT_FIRST_BAR_LINE;
         }
 
-        Self {
-            slider_velocity: difficulty.map_or(DifficultyPoint::DEFAULT_SLIDER_VELOCITY, |point| {
+        // In taiko and mania the scroll speed, which the decoder reads from
+        // the same field, has a wider range than the slider velocity.
+        let slider_velocity = if matches!(mode, GameMode::Taiko | GameMode::Mania) {
+            effect.map_or(EffectPoint::DEFAULT_SCROLL_SPEED, |point| point.scroll_speed)
+        } else {
+            difficulty.map_or(DifficultyPoint::DEFAULT_SLIDER_VELOCITY, |point| {
                 point.slider_velocity
-            }),
+            })
+        };
+
+        Self {
+            slider_velocity,
             timing_signature: timing
                 .map_or(TimingPoint::DEFAULT_TIME_SIGNATURE, |point| {
                     point.time_signature
